@@ -221,88 +221,119 @@ func c01cNested(b *c01cBody, path string) (compose.AnyGraph, []compose.GraphAddN
 	return nil, nil, fmt.Errorf("harness: not a nested body")
 }
 
+// c01cObj is one builder object of the compose API made from a stage description: what an
+// Append* call is handed (a *compose.Lambda, an AnyGraph, a *compose.Parallel, a *compose.ChainBranch).
+// The chain family makes one per Append* call; the share family (c01_share.go) hands the same
+// object to several Append* calls.
+type c01cObj struct {
+	t      string // lambda | graph | bad | pass | par | br
+	lambda *compose.Lambda
+	g      compose.AnyGraph
+	gopts  []compose.GraphAddNodeOpt
+	par    *compose.Parallel
+	br     *compose.ChainBranch
+}
+
+func c01cMake(st *c01cStage, sp string) *c01cObj {
+	switch st.T {
+	case "lambda":
+		b := st.Body
+		if b.Op == "graph" || b.Op == "chain" {
+			g, opts, err := c01cNested(b, sp)
+			if err != nil {
+				// cannot happen for generated cases (nested graphs are pre-checked); make Compile fail
+				return &c01cObj{t: "bad"}
+			}
+			return &c01cObj{t: "graph", g: g, gopts: opts}
+		}
+		return &c01cObj{t: "lambda", lambda: c01cLambda(b)}
+	case "pass":
+		return &c01cObj{t: "pass"}
+	case "par":
+		p := compose.NewParallel()
+		for j := range st.Subs {
+			s := &st.Subs[j]
+			switch s.Body.Op {
+			case "graph", "chain":
+				g, opts, err := c01cNested(&s.Body, sp+"/"+s.K)
+				if err != nil {
+					p.AddGraph(s.K, nil)
+					continue
+				}
+				p.AddGraph(s.K, g, opts...)
+			case "pass":
+				if s.Body.Kind == "" {
+					p.AddPassthrough(s.K)
+				} else {
+					p.AddLambda(s.K, c01cLambda(&s.Body))
+				}
+			default:
+				if s.OptKey != "" {
+					p.AddLambda(s.K, c01cLambda(&s.Body), compose.WithOutputKey(s.OptKey))
+				} else {
+					p.AddLambda(s.K, c01cLambda(&s.Body))
+				}
+			}
+		}
+		return &c01cObj{t: "par", par: p}
+	case "br":
+		table, fail := st.Table, st.Fail
+		cb := compose.NewChainBranch(func(ctx context.Context, in c01cM) (string, error) {
+			if fail != nil {
+				return "", &gcase.BranchErr{ID: *fail}
+			}
+			if len(table) == 0 {
+				return "", nil
+			}
+			return table[int(gcase.Fnv32(c01cRender(in))%uint32(len(table)))], nil
+		})
+		for j := range st.Subs {
+			s := &st.Subs[j]
+			switch s.Body.Op {
+			case "graph", "chain":
+				g, opts, err := c01cNested(&s.Body, sp+"/"+s.K)
+				if err != nil {
+					cb.AddGraph(s.K, nil)
+					continue
+				}
+				cb.AddGraph(s.K, g, opts...)
+			case "pass":
+				if s.Body.Kind == "" {
+					cb.AddPassthrough(s.K)
+				} else {
+					cb.AddLambda(s.K, c01cLambda(&s.Body))
+				}
+			default:
+				cb.AddLambda(s.K, c01cLambda(&s.Body))
+			}
+		}
+		return &c01cObj{t: "br", br: cb}
+	}
+	return &c01cObj{t: "bad"}
+}
+
+func c01cAppend(ch *compose.Chain[c01cM, c01cM], o *c01cObj) {
+	switch o.t {
+	case "lambda":
+		ch.AppendLambda(o.lambda)
+	case "graph":
+		ch.AppendGraph(o.g, o.gopts...)
+	case "pass":
+		ch.AppendPassthrough()
+	case "par":
+		ch.AppendParallel(o.par)
+	case "br":
+		ch.AppendBranch(o.br)
+	default:
+		ch.AppendParallel(nil)
+	}
+}
+
 // c01cBuild issues the Append* calls; chain.go keeps the first error until Compile.
 func c01cBuild(c *c01cChain, path string) *compose.Chain[c01cM, c01cM] {
 	ch := compose.NewChain[c01cM, c01cM]()
 	for i := range c.Stages {
-		st := &c.Stages[i]
-		sp := fmt.Sprintf("%s/s%d", path, i)
-		switch st.T {
-		case "lambda":
-			b := st.Body
-			if b.Op == "graph" || b.Op == "chain" {
-				g, opts, err := c01cNested(b, sp)
-				if err != nil {
-					// cannot happen for generated cases (nested graphs are pre-checked); make Compile fail
-					ch.AppendParallel(nil)
-					continue
-				}
-				ch.AppendGraph(g, opts...)
-			} else {
-				ch.AppendLambda(c01cLambda(b))
-			}
-		case "pass":
-			ch.AppendPassthrough()
-		case "par":
-			p := compose.NewParallel()
-			for j := range st.Subs {
-				s := &st.Subs[j]
-				switch s.Body.Op {
-				case "graph", "chain":
-					g, opts, err := c01cNested(&s.Body, sp+"/"+s.K)
-					if err != nil {
-						p.AddGraph(s.K, nil)
-						continue
-					}
-					p.AddGraph(s.K, g, opts...)
-				case "pass":
-					if s.Body.Kind == "" {
-						p.AddPassthrough(s.K)
-					} else {
-						p.AddLambda(s.K, c01cLambda(&s.Body))
-					}
-				default:
-					if s.OptKey != "" {
-						p.AddLambda(s.K, c01cLambda(&s.Body), compose.WithOutputKey(s.OptKey))
-					} else {
-						p.AddLambda(s.K, c01cLambda(&s.Body))
-					}
-				}
-			}
-			ch.AppendParallel(p)
-		case "br":
-			table, fail := st.Table, st.Fail
-			cb := compose.NewChainBranch(func(ctx context.Context, in c01cM) (string, error) {
-				if fail != nil {
-					return "", &gcase.BranchErr{ID: *fail}
-				}
-				if len(table) == 0 {
-					return "", nil
-				}
-				return table[int(gcase.Fnv32(c01cRender(in))%uint32(len(table)))], nil
-			})
-			for j := range st.Subs {
-				s := &st.Subs[j]
-				switch s.Body.Op {
-				case "graph", "chain":
-					g, opts, err := c01cNested(&s.Body, sp+"/"+s.K)
-					if err != nil {
-						cb.AddGraph(s.K, nil)
-						continue
-					}
-					cb.AddGraph(s.K, g, opts...)
-				case "pass":
-					if s.Body.Kind == "" {
-						cb.AddPassthrough(s.K)
-					} else {
-						cb.AddLambda(s.K, c01cLambda(&s.Body))
-					}
-				default:
-					cb.AddLambda(s.K, c01cLambda(&s.Body))
-				}
-			}
-			ch.AppendBranch(cb)
-		}
+		c01cAppend(ch, c01cMake(&c.Stages[i], fmt.Sprintf("%s/s%d", path, i)))
 	}
 	return ch
 }
